@@ -1,0 +1,28 @@
+//go:build verif
+
+package p2pke
+
+import "sync/atomic"
+
+// Hooks for the verification harness in /verif. Compiled only with -tags verif.
+
+// VerifSetSendCounter places the session's outbound counter at n, so that the
+// behaviour at the message limit can be observed without sending 2^32 messages.
+func VerifSetSendCounter(s *Session, n uint64) {
+	atomic.StoreUint64(&s.nonce, n)
+}
+
+// VerifSendCounter returns the session's outbound counter.
+func VerifSendCounter(s *Session) uint64 {
+	return atomic.LoadUint64(&s.nonce)
+}
+
+// VerifChannelBinding returns the handshake hash of the session's key exchange.
+func VerifChannelBinding(s *Session) []byte {
+	return append([]byte{}, s.hs.ChannelBinding()...)
+}
+
+// VerifHandshakeIndex returns the session's handshake state index.
+func VerifHandshakeIndex(s *Session) uint8 {
+	return s.hsIndex
+}
